@@ -186,7 +186,8 @@ struct Mon {
     // the same string as the footer of a TZif file: types = std (+ dst), one transition at 2001-01-01
     bool dst = ep.has_dst && !ep.dst_abbr.empty();
     if (std::abs(ep.std_off) >= 86400 || (dst && std::abs(ep.dst_off) >= 86400)) return;  // TZif types must be within 24h
-    if (ep.std_abbr.empty() || ep.std_abbr.size() > 40 || ep.dst_abbr.size() > 40) return;
+    // the standard designation comes first in the table and stays short; the daylight one is last and may be long
+    if (ep.std_abbr.empty() || ep.std_abbr.size() > 40 || ep.dst_abbr.size() > 1200) return;
     std::vector<orc::Info> types;
     types.push_back(orc::Info{ep.std_off, false, ep.std_abbr});
     if (dst) {
@@ -271,6 +272,13 @@ int main(int argc, char** argv) {
                              "IST-1IWT0,0/0,J182/0", "EST5EDT,M3.2.0/+2,M11.1.0/-1", "EST05:00:00EDT04:00:00,M03.02.00/02:00:00,M011.01.00/002:00:00",
                              "EST5EDT,J60/0,J59/0", "AAA0BBB,1/0,2/0", "EST5EDT4:30:30,100/3:4:5,J200/-0:0:1"};
       for (const char* p : panel) m.one(p, "panel", true);
+      // long footers (a long quoted daylight designation): total lengths around 255/256, 511/512, 1023/1024
+      for (int len : {100, 200, 236, 237, 238, 239, 240, 241, 242, 243, 244, 245, 300, 490, 491, 492, 493, 494, 495, 496, 497, 498, 499, 500, 700, 1000, 1003, 1004, 1005, 1006}) {
+        std::string longd(static_cast<size_t>(len), 'D');
+        for (size_t i = 0; i < longd.size(); ++i) longd[i] = static_cast<char>('A' + (i * 7) % 26);
+        m.one("STD5<" + longd + ">,M3.2.0,M11.1.0", "long-designation", true);
+        m.one("<ST" + std::to_string(len) + ">-3:30<" + longd + ">-4:30,J60/1,300/3", "long-designation", true);
+      }
     }
     for (long i = 0; i < chunk; ++i) {
       int k = (int)rng.range(0, 9);
